@@ -517,7 +517,7 @@ func c11Work(c *engine.Ctx) {
 		externals = append(externals, ` SYSTEM `+quote(l, `"`), ` SYSTEM `+quote(l, `'`), ` PUBLIC "p" `+quote(l, `"`), ` PUBLIC 'p[' `+quote(l, `'`))
 	}
 	externals = append(externals, ` SYSTEM "i'j"`, ` SYSTEM 'k"l'`)
-	subsets := []string{"", " []", "[]", " [ ]", " [<!-- it's \"x ] > [ --><!ELEMENT e (f)>]", "[<!--]>-->]", " [<?pi x?>]"}
+	subsets := []string{"", " []", "[]", " [ ]", " [<!-- it's \"x ] > [ --><!ELEMENT e (f)>]", "[<!--]>-->]", " [<?pi x?>]", " [<?pi it's?>]", "[<?pi ]> ?>]", " [<?pi \"?><!ENTITY b \"c\">]", "[<?a [?><?b ]>?>]"}
 	for _, l := range lits {
 		subsets = append(subsets, ` [<!ENTITY b `+quote(l, `"`)+`>]`, `[<!ATTLIST e f CDATA `+quote(l, `'`)+`><!ELEMENT e (f)>]`, ` [<!ENTITY % p SYSTEM `+quote(l, `"`)+`> %p;]`)
 	}
